@@ -193,7 +193,7 @@ func c19Program(kind svc.Kind, point string, v *c19Value) (*svc.Program, []*gen.
 }
 
 func c19(run *ev.Run) int {
-	run.SetRule("cases = panic values {nil, error, *connect.Error, wrapped *connect.Error, string, int, struct, pointer, error wrapping the abort sentinel, error whose Is matches it, the sentinel itself} x 4 kinds x 3 protocols x panic point {before first receive, between sends, after last send} x 12 placements of WithRecover among other interceptors/option groups x {in-memory loopback; real HTTP/1.1 and HTTP/2 servers (quick: one placement, thorough: all 12)}; what the recovery function returns {coded error with details and metadata, plain error, wrapped coded error, each of the 16 codes} compared with the same error returned by a non-panicking handler; concurrent phase: G goroutines x K calls on shared handlers (real HTTP/2 + HTTP/1.1), every panic value unique, one in three calls not panicking, oracle = multiset of recovered values equals multiset of panics and every client sees the error built from its own value; sentinel cases run ServeHTTP directly under recover(); plus non-panicking calls with and without WithRecover (differential); exhaustive in this bound; distinct by (value, kind, protocol, point, placement, transport)")
+	run.SetRule("cases = panic values {nil, error, *connect.Error, wrapped *connect.Error, string, int, struct, pointer, error wrapping the abort sentinel, error whose Is matches it, the sentinel itself} x 4 kinds x 3 protocols x panic point {before first receive, between sends, after last send} x client context {no deadline, far deadline} x 12 placements of WithRecover among other interceptors/option groups x {in-memory loopback; real HTTP/1.1 and HTTP/2 servers (quick: one placement, thorough: all 12)}; what the recovery function returns {coded error with details and metadata, plain error, wrapped coded error, each of the 16 codes} compared with the same error returned by a non-panicking handler; concurrent phase: G goroutines x K calls on shared handlers (real HTTP/2 + HTTP/1.1), every panic value unique, one in three calls not panicking, oracle = multiset of recovered values equals multiset of panics and every client sees the error built from its own value; sentinel cases run ServeHTTP directly under recover(); plus non-panicking calls with and without WithRecover (differential); exhaustive in this bound; distinct by (value, kind, protocol, point, placement, transport)")
 	values := c19Values()
 	layouts := c19Layouts()
 	points := []string{"start", "mid", "end"}
@@ -241,7 +241,9 @@ func c19(run *ev.Run) int {
 				prog, sent := c19Program(j.kind, point, &v)
 				call := reg.New("c19", prog)
 				var cl *svc.CLog
-				ok, dump := watchdog(30*time.Second, func() { cl = cs.Do(context.Background(), j.kind, call.ID, nil, []*gen.Msg{{Id: 1}}) })
+				ctx, cancelCtx := c19Ctx(key)
+				ok, dump := watchdog(30*time.Second, func() { cl = cs.Do(ctx, j.kind, call.ID, nil, []*gen.Msg{{Id: 1}}) })
+				cancelCtx()
 				reg.Drop(call)
 				run.Eval(fmt.Sprintf("loopback|%s|%s|%s|%s|%s", j.layout, j.proto, j.kind, point, v.name))
 				if !ok {
@@ -391,7 +393,9 @@ func c19RealLayout(run *ev.Run, values []c19Value, layout string) {
 						prog, sent := c19Program(kind, point, &v)
 						call := srv.Reg.New("c19r", prog)
 						var cl *svc.CLog
-						ok, dump := watchdog(30*time.Second, func() { cl = cs.Do(context.Background(), kind, call.ID, nil, []*gen.Msg{{Id: 1}}) })
+						ctx, cancelCtx := c19Ctx(key)
+						ok, dump := watchdog(30*time.Second, func() { cl = cs.Do(ctx, kind, call.ID, nil, []*gen.Msg{{Id: 1}}) })
+						cancelCtx()
 						srv.Reg.Drop(call)
 						cs.Tap.Forget(call.ID)
 						run.Count("real.calls", 1)
@@ -462,7 +466,9 @@ func c19Returns(run *ev.Run) {
 					prog, sent := c19Program(kind, point, &v)
 					call := reg.New("c19t", prog)
 					var cl, cl0 *svc.CLog
-					ok, dump := watchdog(30*time.Second, func() { cl = cs.Do(context.Background(), kind, call.ID, nil, []*gen.Msg{{Id: 1}}) })
+					ctx, cancelCtx := c19Ctx(key)
+					ok, dump := watchdog(30*time.Second, func() { cl = cs.Do(ctx, kind, call.ID, nil, []*gen.Msg{{Id: 1}}) })
+					cancelCtx()
 					reg.Drop(call)
 					run.Eval("returns|" + protocol + "|" + kind.String() + "|" + point + "|" + rt.name)
 					run.Count("returns.compared", 1)
@@ -482,7 +488,9 @@ func c19Returns(run *ev.Run) {
 					}
 					prog0.Return = rt.mk()
 					call0 := reg0.New("c19t0", prog0)
-					cl0 = cs0.Do(context.Background(), kind, call0.ID, nil, []*gen.Msg{{Id: 1}})
+					ctx0, cancel0 := c19Ctx(key)
+					cl0 = cs0.Do(ctx0, kind, call0.ID, nil, []*gen.Msg{{Id: 1}})
+					cancel0()
 					reg0.Drop(call0)
 					detail := map[string]any{"protocol": protocol, "kind": kind.String(), "point": point, "returned": rt.name, "recover_calls": calls}
 					if calls != 1 {
@@ -497,6 +505,19 @@ func c19Returns(run *ev.Run) {
 					}
 					if same, why := gen.SameSeq(cl.Msgs, sent); !same {
 						run.Violation(key+"/messages", "messages sent before the panic were not delivered before the error: "+why, detail)
+					}
+					// ... and in absolute terms: the code and message of what the
+					// function returned (an uncoded error is reported as unknown)
+					want := rt.mk()
+					wantCode, wantMsg := connect.CodeUnknown, want.Error()
+					var wce *connect.Error
+					if errors.As(want, &wce) {
+						wantCode, wantMsg = wce.Code(), wce.Message()
+					}
+					var gce *connect.Error
+					if !errors.As(cl.Err, &gce) || gce.Code() != wantCode || gce.Message() != wantMsg {
+						detail["client_err"] = errStr(cl.Err)
+						run.Violation(key+"/returned-error", fmt.Sprintf("the recovery function returned %v: %q, the client received %v", wantCode, wantMsg, cl.Err), detail)
 					}
 				}
 			}
@@ -624,4 +645,18 @@ func c19Outcome(l *svc.CLog) string {
 		}
 	}
 	return s
+}
+
+// c19Ctx: every other case runs with a (far) client deadline, i.e. with a
+// timeout header and a handler context that has a deadline; what the recovery
+// function returns must reach the client all the same.
+func c19Ctx(key string) (context.Context, context.CancelFunc) {
+	n := 0
+	for i := 0; i < len(key); i++ {
+		n += int(key[i])
+	}
+	if n%2 == 0 {
+		return context.WithTimeout(context.Background(), 10*time.Minute)
+	}
+	return context.Background(), func() {}
 }
